@@ -108,10 +108,11 @@ def run_mc_walk(pid, scn, gh_exe, timeout=3600, heap="6g"):
     """TLC exhaustive run of the scenario; when scn.walk the transition graph is piped
     into the harness.  Returns a result dict."""
     d = vf.fresh_dir(os.path.join(vf.RUN, pid, scn.name))
-    cfg = vf.write_cfg(os.path.join(d, "Machine.cfg"), scn.constants(emit=scn.walk), view="View",
+    module = getattr(scn, "module", "Machine.tla")
+    cfg = vf.write_cfg(os.path.join(d, module.replace(".tla", ".cfg")), scn.constants(emit=scn.walk), view="View",
                        action_constraints=["Emit"], invariants=scn.invariants, properties=scn.properties,
-                       constraints=["ExploreOnlySame"])
-    cmd = vf.tlc_cmd("Machine.tla", cfg, os.path.join(d, "md"), workers=scn.workers, heap=heap,
+                       constraints=getattr(scn, "constraints", ["ExploreOnlySame"]))
+    cmd = vf.tlc_cmd(module, cfg, os.path.join(d, "md"), workers=scn.workers, heap=heap,
                      extra=["-coverage", "1"] if not scn.walk else [])
     t0 = time.time()
     res = {"scenario": scn.name, "group": scn.group, "kind": scn.kind, "directed": scn.directed}
@@ -125,7 +126,7 @@ def run_mc_walk(pid, scn, gh_exe, timeout=3600, heap="6g"):
         os.makedirs(vf.REPLAYS, exist_ok=True)
         # TLC | tee(non-JSON lines -> log) | harness
         tlc = subprocess.Popen(cmd, cwd=vf.SPEC, stdout=subprocess.PIPE, stderr=subprocess.STDOUT, env=_tlc_env())
-        gh = subprocess.Popen([gh_exe, "walk", planf], stdin=subprocess.PIPE, stdout=subprocess.PIPE,
+        gh = subprocess.Popen([gh_exe, getattr(scn, "mode", "walk"), planf], stdin=subprocess.PIPE, stdout=subprocess.PIPE,
                               stderr=subprocess.PIPE)
         with open(tlc_log, "wb") as logf:
             try:
@@ -240,3 +241,38 @@ def validate_trace(pid, scn, trace_path, check_obs=True, timeout=1800, tag="v"):
     if not check_obs:
         res["mismatches"] = [json.loads(json.loads(ln)) for ln in text.splitlines() if ln.startswith('"{\\"mismatch_at') or ln.startswith('"{\\"call')][:5]
     return res
+
+
+class PairScenario:
+    """Two objects of one class + copies (spec/Pair.tla, property C06)."""
+    module = "Pair.tla"
+    mode = "walkpair"
+    constraints = []
+    trace = None
+    bad = False
+    forces = (False,)
+
+    def __init__(self, name, group, maxn, ops=None, labels=(0, 1), mults=(0, 1, 2), maxmult=2,
+                 weights="WeightSet2", walk=True, reps=2, workers=4):
+        self.name, self.group, self.maxn = name, group, maxn
+        self.directed, self.kind = GROUPS[group]
+        self.ops = list(ops) if ops is not None else [o for o in mutators(group, reciprocal=False)
+                                                      if o not in ("removeDuplicateEdges", "addEdgeD")]
+        self.labels, self.mults, self.maxmult, self.weights = labels, mults, maxmult, weights
+        self.walk, self.reps, self.workers = walk, reps, workers
+        self.invariants = ["EqCorrect", "EqSymmetric", "EqReflexive"]
+        self.properties = ["CopyIndependent"]
+
+    def constants(self, emit):
+        return {
+            "Directed": "= " + ("TRUE" if self.directed else "FALSE"),
+            "Kind": '= "%s"' % self.kind,
+            "Pinned": "= {}",
+            "MaxN": "= %d" % self.maxn,
+            "Ops": "= " + vf.tla_set(self.ops),
+            "LabelArgs": "= " + vf.tla_set(self.labels),
+            "MultArgs": "= " + vf.tla_set(self.mults),
+            "MaxMult": "= %d" % self.maxmult,
+            "WeightArgs": "<- " + self.weights,
+            "EmitJson": "= " + ("TRUE" if emit else "FALSE"),
+        }
